@@ -200,6 +200,10 @@ class SortedLookupMapColumn(NoValueColumn):
   def sort_key(self):
     return self._sort_key
 
+  @property
+  def lookup_col(self):
+    return self._lookup_col
+
   def do_lookup(self, key):
     """
     Looks up key in the lookup map and returns a tuple with two elements: the list of matching
